@@ -1,7 +1,8 @@
 (* Extraction of the EML parser model for the correspondence check (ExtrOcamlBasic only). *)
-From Verif Require Import Bytes Eml EmlRender.
+From Verif Require Import Bytes WordEnc Writer Eml EmlRender EmlWriter.
 Require Extraction.
 Require Import ExtrOcamlBasic.
 Extraction "model.ml"
   Eml.parse_eml_fixed Eml.parse_eml_old Eml.parse_multipart_header Eml.filename_of
-  EmlRender.parse_and_rerender_fields EmlRender.roundtrip_filename EmlRender.needs_encoding EmlRender.sanitize.
+  EmlRender.parse_and_rerender_fields EmlRender.roundtrip_filename EmlRender.needs_encoding EmlRender.sanitize
+  EmlWriter.filename_via_writer EmlWriter.fresh_file.
